@@ -31,7 +31,7 @@ Fixpoint spec_dumps (s : state) (g : graph) (h : list hop) : list dump :=
   match h with
   | [] => []
   | x :: t => let s' := step s x in let g' := g_step g x in
-              g_dump s'.(interner) s'.(vecs) g' :: spec_dumps s' g' t
+              g_dump s'.(interner) (m_vec_ids s') g' :: spec_dumps s' g' t
   end.
 
 Definition hcase_ok (c : hcase) : bool :=
